@@ -199,7 +199,7 @@ func ParseTilePath(path string) (Tile, error) {
 		f[2] = "0"
 	}
 	l, err2 := strconv.Atoi(f[2])
-	if err1 != nil || err2 != nil || h < 1 || l < 0 || h > 30 {
+	if err1 != nil || err2 != nil || h < 1 || l < 0 || h > 30 || l > 63 {
 		return Tile{}, &badPathError{path}
 	}
 	w := 1 << uint(h)
